@@ -225,6 +225,7 @@ const preludeRelaxed = `(set-option :produce-models true)
 (define-fun idx ((o Int) (i Int)) Int (+ o i))
 (declare-fun arr_ty (Int) Int)
 (declare-fun cell_ty (Int) Int)
+(declare-fun chan_ty (Int) Int)
 `
 
 const prelude = `(set-option :produce-models true)
@@ -246,6 +247,7 @@ const prelude = `(set-option :produce-models true)
 (assert (forall ((o Int) (i Int)) (! (= (idx o i) (+ o i)) :pattern ((idx o i)))))
 (declare-fun arr_ty (Int) Int)
 (declare-fun cell_ty (Int) Int)
+(declare-fun chan_ty (Int) Int)
 `
 
 // render produces the full text of a query. goalNeg is the negated goal (or "" for a
